@@ -224,14 +224,16 @@ static bool planOf(const Toks& t, size_t& i, Plan& p)
 		i++;
 		return bodyOf(t[i++], p.body);
 	}
-	if (k == "s" || k == "S") { // streamed parts: sizes a,b,c (cyclic until the body is used up); S = no final chunk
+	if (k == "s" || k == "S" || k == "w") { // streamed parts: sizes a,b,c (cyclic until the body is used up); S = no final chunk; w = no framing header
 		if (i + 1 >= t.size()) return false;
 		if (!bodyOf(t[i++], p.body)) return false;
 		p.parts = sizesOf(t[i++]);
 		p.endChunks = k == "s";
-		p.kind = 's';
+		p.kind = k == "w" ? 'w' : 's';
 		return true;
 	}
+	if (k == "W") { if (i >= t.size()) return false; return bodyOf(t[i++], p.body); }
+	if (k == "m") return true;
 	return false;
 }
 
@@ -374,8 +376,17 @@ public:
 				r.put(String("moved"));
 			}
 			break;
+		case 'm': // a file that does not exist
+			r.put(File(String::f("/tmp/c10h.%d.none/missing.bin", (int)getpid())));
+			break;
+		case 'W': { // the handler writes a file itself, no framing header set
+			Str path = makeFileLocked(p.body, "bin");
+			r.writeFile(S(path));
+			break;
+		}
+		case 'w':
 		case 's': {
-			r.setHeader("Transfer-Encoding", "chunked");
+			if (p.kind == 's') r.setHeader("Transfer-Encoding", "chunked"); // 'w': no framing header, the library announces and ends the chunks
 			size_t pos = 0, k = 0;
 			while (pos < p.body.size()) {
 				size_t n = p.parts.empty() ? p.body.size() : p.parts[k % p.parts.size()];
@@ -385,7 +396,7 @@ public:
 				pos += n; k++;
 			}
 			if (p.body.empty()) r.sendHeaders();
-			if (p.endChunks) r.socket() << "0\r\n\r\n";
+			if (p.kind == 's' && p.endChunks) r.socket() << "0\r\n\r\n";
 			break;
 		}
 		}
@@ -578,8 +589,10 @@ static Str canonWire(const Str& w, int port)
 	size_t p = s.find("\r\nDate: ");
 	if (p != Str::npos && p < he) {
 		size_t e = s.find("\r\n", p + 2);
-		s = s.substr(0, p + 8) + "D" + s.substr(e);
-		he = s.find("\r\n\r\n");
+		if (e >= p + 12 && s.compare(e - 4, 4, " GMT") == 0) { // the server's clock; a handler's own value stays
+			s = s.substr(0, p + 8) + "D" + s.substr(e);
+			he = s.find("\r\n\r\n");
+		}
 	}
 	char b[32];
 	snprintf(b, sizeof b, ":%d\r\n", port);
@@ -691,7 +704,9 @@ static Str clientObs(HttpResponse& res, int port, const Var* wantJson)
 	size_t dp = o.find(" 44617465 ");
 	if (dp != Str::npos) {
 		size_t e = o.find(' ', dp + 10);
-		o = o.substr(0, dp + 10) + "44" + (e == Str::npos ? "" : o.substr(e));
+		Str v = o.substr(dp + 10, e == Str::npos ? Str::npos : e - dp - 10);
+		if (v.size() >= 8 && v.compare(v.size() - 8, 8, "20474d54") == 0) // ends in " GMT": the server's clock; a handler's own value stays
+			o = o.substr(0, dp + 10) + "44" + (e == Str::npos ? "" : o.substr(e));
 	}
 	if (wantJson) o += (res.json() == *wantJson && res.body() == BA(Json::encode(*wantJson))) ? "J1" : "J0";
 	else o += digest(res.body().data(), (size_t)res.body().length());
